@@ -664,6 +664,17 @@ pub fn c10_scenarios(ns: &[u64], fut: bool) -> Vec<Scn> {
                 vec![opv(TrySend, S0, 1), opv(TrySend, S0, 2)],
             ];
             out.push(s);
+            // sibling consumer and producer in one thread: reaches, with one
+            // preemption less, the window between the publication of the new
+            // stream and the correction of its position
+            let mut s = Scn::new(&name("c10-addstream-vs-sibling-then-producer", &stn), cfg);
+            s.prefix = prep(st, n, &[R0]);
+            s.prefix.push(opd(CloneH, R0, R1));
+            s.threads = vec![
+                vec![opd(AddStream, R0, R2)],
+                vec![op(TryRecv, R1), opv(TrySend, S0, 1), opv(TrySend, S0, 2)],
+            ];
+            out.push(s);
             // two streams are added at the same time (one CAS loses)
             let mut s = Scn::new(&name("c10-two-addstreams-vs-producer", &stn), cfg);
             s.prefix = prep(st, n, &[R0]);
